@@ -8,17 +8,22 @@
 package c20
 
 import (
+	"bufio"
 	"context"
 	"errors"
 	"fmt"
 	"io"
 	"log/slog"
+	"net"
 	"net/http"
 	"net/http/httptest"
+	"regexp"
 	"runtime/debug"
 	"strings"
+	"sync"
 	"testing"
 
+	aglog "github.com/AdguardTeam/golibs/log"
 	"github.com/AdguardTeam/golibs/logutil/slogutil"
 	"github.com/AdguardTeam/golibs/netutil/httputil"
 	"github.com/AdguardTeam/golibs/syncutil"
@@ -278,7 +283,7 @@ func (w *world) innerHandler(rw http.ResponseWriter, r *http.Request) {
 
 		return
 	}
-	l.Log(r.Context(), slog.LevelError, "inner")
+	l.Log(r.Context(), slog.LevelError, "inner", "rid", id)
 	k.Yield("handler.2")
 	body, _ := io.ReadAll(r.Body)
 	if !check("body", string(body), sp.body) || !observe() {
@@ -296,7 +301,13 @@ func (w *world) innerHandler(rw http.ResponseWriter, r *http.Request) {
 		k.Yield("handler.3")
 	}
 	if sp.status == http.StatusSwitchingProtocols {
-		// The final status of an upgrade; no body follows.
+		// The final status of an upgrade; no body follows, the handler takes
+		// the connection over.
+		if hj, ok := rw.(http.Hijacker); ok {
+			_, _, _ = hj.Hijack()
+			k.Tell("hijacked", func() { w.rc.Stats.Probe("connection-hijacked") })
+		}
+
 		return
 	}
 	_, _ = io.WriteString(rw, sp.reply[:len(sp.reply)/2])
@@ -364,6 +375,10 @@ func (c *clientRW) WriteHeader(code int) {
 	}
 }
 
+// Hijack implements http.Hijacker: the connection (none here) is the
+// handler's from now on.
+func (c *clientRW) Hijack() (net.Conn, *bufio.ReadWriter, error) { return nil, nil, nil }
+
 func (c *clientRW) Write(b []byte) (int, error) {
 	if c.code == 0 {
 		c.code = http.StatusOK
@@ -397,6 +412,22 @@ func run(rc *kernel.RunCtx) {
 	logEnabled := mwLevel >= w.level
 
 	base := slog.New(&baseHandler{w: w})
+	// In some runs the base logger is one of the library's own (a real handler
+	// writing to a sink) instead of the recording stub: whatever its format,
+	// the handler's own record must carry its request's attributes.
+	var sink *lineSink
+	realFormat := slogutil.Format("")
+	if tp.Bool(1, 4) {
+		sink = &lineSink{}
+		realFormat = []slogutil.Format{slogutil.FormatAdGuardLegacy, slogutil.FormatText, slogutil.FormatJSONHybrid, slogutil.FormatJSON}[tp.Choose(4)]
+		if realFormat == slogutil.FormatAdGuardLegacy {
+			aglog.SetOutput(sink)
+			aglog.SetFlags(0)
+		}
+		base = slogutil.New(&slogutil.Config{Output: sink, Format: realFormat, Level: slog.LevelInfo})
+		mwLevel, w.level = slog.LevelInfo, slog.LevelInfo
+		rc.Stats.Probe("real-base-logger-" + string(realFormat))
+	}
 	logMw := httputil.NewLogMiddleware(base, mwLevel)
 
 	// Middleware list: the LogMiddleware at a drawn position among 0-3
@@ -458,6 +489,14 @@ func run(rc *kernel.RunCtx) {
 		wrapped = append(wrapped, httputil.Wrap(http.HandlerFunc(w.innerHandler), mws...))
 	}
 
+	// The server's base context may carry a logger already (what
+	// http.Server.BaseContext is used for); every request context derives
+	// from it.
+	baseCtx := context.Background()
+	if tp.Bool(1, 2) {
+		baseCtx = slogutil.ContextWithLogger(baseCtx, base)
+		rc.Stats.Probe("base-context-carries-a-logger")
+	}
 	nTasks := tp.Range(1, 5)
 	plans := make([][]*reqSpec, nTasks)
 	methods := []string{"GET", "POST", "PUT", "DELETE", "PATCH"}
@@ -532,7 +571,7 @@ func run(rc *kernel.RunCtx) {
 			r.RemoteAddr = sp.raddr
 			r.RequestURI = sp.uri
 			r.Header.Set("X-Id", sp.hdr)
-			sp.req = r.WithContext(context.WithValue(context.Background(), ctxKey{}, sp.ctxVal))
+			sp.req = r.WithContext(context.WithValue(baseCtx, ctxKey{}, sp.ctxVal))
 			w.specs = append(w.specs, sp)
 			plans[ti] = append(plans[ti], sp)
 		}
@@ -598,6 +637,12 @@ func run(rc *kernel.RunCtx) {
 		return
 	}
 
+	if sink != nil {
+		checkSink(rc, w.specs, sink.buf, realFormat)
+		if rc.Violation != nil {
+			return
+		}
+	}
 	// Post-run oracle.
 	for _, sp := range w.specs {
 		var wantTrail []string
@@ -636,6 +681,10 @@ func run(rc *kernel.RunCtx) {
 
 			return
 		}
+		if sink != nil {
+			// The records went to a real handler: judged below, by line.
+			continue
+		}
 		var msgs []string
 		for _, l := range w.logs[sp.id] {
 			msgs = append(msgs, l.msg)
@@ -670,6 +719,62 @@ func run(rc *kernel.RunCtx) {
 		if nInner != 1 || nFinished > nLogMw || (logEnabled && nFinished < minFinished) {
 			rc.Fail("log-records", "LogMiddleware.Wrap", fmt.Sprintf(
 				"request %d produced log records %v, want the handler's own record and (logging enabled: %v) one \"finished\" per LogMiddleware (%d in the chain)", sp.id, msgs, logEnabled, nLogMw))
+
+			return
+		}
+	}
+}
+
+// lineSink collects the output of a real base logger.  Handlers serialise
+// their writes; Write does not yield (a task must not be parked while it holds
+// a real mutex of the standard library's log packages).
+type lineSink struct {
+	mu  sync.Mutex
+	buf []byte
+}
+
+func (s *lineSink) Write(p []byte) (int, error) {
+	s.mu.Lock()
+	s.buf = append(s.buf, p...)
+	s.mu.Unlock()
+
+	return len(p), nil
+}
+
+var ridRe = regexp.MustCompile(`rid"?[=:]"?(\d+)`)
+
+// checkSink checks every line that the inner handler logged (it carries the
+// request id): it must carry that request's host, method, remote address and
+// request URI as the handler's context logger has to, whatever the format.
+func checkSink(rc *kernel.RunCtx, specs []*reqSpec, out []byte, format slogutil.Format) {
+	for _, line := range strings.Split(string(out), "\n") {
+		m := ridRe.FindStringSubmatch(line)
+		if m == nil || !strings.Contains(line, "inner") {
+			continue
+		}
+		id := 0
+		for _, c := range m[1] {
+			id = id*10 + int(c-'0')
+		}
+		if id >= len(specs) {
+			continue
+		}
+		sp := specs[id]
+		missing := ""
+		for _, f := range [][2]string{{"host", sp.host}, {"method", sp.lMethod}, {"raddr", sp.raddr}, {"request_uri", sp.lURI}} {
+			if f[1] == "" {
+				continue
+			}
+			if !strings.Contains(line, f[0]+"="+f[1]) && !strings.Contains(line, f[0]+"=\""+f[1]+"\"") &&
+				!strings.Contains(line, "\""+f[0]+"\":\""+f[1]+"\"") && !strings.Contains(line, f[0]+"=\\\""+f[1]+"\\\"") {
+				missing = f[0] + "=" + f[1]
+
+				break
+			}
+		}
+		if missing != "" {
+			rc.Fail("foreign-log-attrs", "LogMiddleware.Wrap", fmt.Sprintf(
+				"base logger of format %q: the record logged while serving request %d lacks %s: %s", format, id, missing, line))
 
 			return
 		}
